@@ -722,16 +722,6 @@ package ggql
 //@ eleminv []*Arg: v != nil
 //@ eleminv map[string]*Arg: v != nil
 
-//@ func (*Field).getArg
-//@   props C10
-//@   check panic {C03}
-//@   requires f != nil
-//@   ensures[found] av != nil ==> av.Arg == name
-//@   ensures #res == old(#res)
-//@   assigns nothing
-//@   loop 0: invariant[bounds] rangeindex+1 <= len(f.Args)
-//@           decreases len(f.Args) - rangeindex
-
 //@ func (*Field).sortArgs
 //@   props C10
 //@   check panic {C03}
@@ -743,10 +733,9 @@ package ggql
 //@   ensures[undeclared-arg-object]{C10} is(old(f.ConType), *Object) ==> (forall i int :: 0 <= i && i < old(len(f.Args)) && old(fdOf(f.ConType, f.Name) != nil && !argDeclared(f.ConType, f.Name, f.Args[i].Arg)) ==> len(errors) > 0)
 //@   ensures[undeclared-arg-interface]{C10} is(old(f.ConType), *Interface) ==> (forall i int :: 0 <= i && i < old(len(f.Args)) && old(fdOf(f.ConType, f.Name) != nil && !argDeclared(f.ConType, f.Name, f.Args[i].Arg)) ==> len(errors) > 0)
 //@   ensures[undeclared-arg-schema]{C10} (is(old(f.ConType), *Schema) || is(old(f.ConType), *uuSchema)) ==> (forall i int :: 0 <= i && i < old(len(f.Args)) && old(fdOf(f.ConType, f.Name) != nil && !argDeclared(f.ConType, f.Name, f.Args[i].Arg)) ==> len(errors) > 0)
+//@   ensures[args-kept]{C11,C03} f.Args == old(f.Args)
 //@   assigns fresh
-//@   loop 0: invariant[bounds] rangeindex+1 <= len(fd.args.list)
-//@           decreases len(fd.args.list) - rangeindex
-//@   loop 1: invariant[bounds] rangeindex+1 <= len(f.Args)
+//@   loop 0: invariant[bounds] rangeindex+1 <= len(f.Args)
 //@           invariant[errs] errsFresh(errors)
 //@           invariant[found]{C10} forall i int :: 0 <= i && i <= rangeindex && !argDeclared(f.ConType, f.Name, f.Args[i].Arg) ==> len(errors) > 0
 //@           decreases len(f.Args) - rangeindex
@@ -803,7 +792,7 @@ package ggql
 //@   requires root != nil && field != nil
 //@   ensures[errs-fresh]{C06} errsFresh(ea)
 //@   ensures[no-resolver]{C10} #res == old(#res)
-//@   ensures[required-missing]{C10} forall k string :: nonNullArg(fd, k) && !suppliedUpTo(old(field.Args), k, len(old(field.Args))) ==> len(ea) > 0
+//@   ensures[required-missing]{C10} forall k string {suppliedUpTo(old(field.Args), k, len(old(field.Args)))} :: nonNullArg(fd, k) && !suppliedUpTo(old(field.Args), k, len(old(field.Args))) ==> len(ea) > 0
 //@   assigns fresh
 //@   loop 0: invariant[req] forall k string :: seen(0, k) && is(fd.args.dict[k].Type, *NonNull) ==> has(required, k) && !required[k]
 //@           invariant[req-only] forall k string :: has(required, k) ==> !required[k]
@@ -909,6 +898,8 @@ package ggql
 //@           preserves[old-paths]{C06} oldPathsKept(hdr(ea), 0)
 //@           decreases cnt - i
 
+//@ -- a leaf type: what resolve() hands to the type's own output coercion
+//@ spec isLeafT(x Type) bool = x != nil && !is(x, *List) && !is(x, *Object) && !is(x, *Schema) && !is(x, *Interface) && !is(x, *uuSchema) && !is(x, *NonNull) && !is(x, *Union) && is(x, OutCoercer)
 //@ func (*Root).resolveField
 //@   requires[object-present] obj != nil
 //@   requires[binding-locks-free]{C12} onlyRegistryLock(root)
@@ -926,6 +917,8 @@ package ggql
 //@   ensures[key-set]{C07} len(ea) == 0 ==> has(result, fkey(field))
 //@   ensures[key-frame]{C01} forall k string :: k != fkey(field) ==> (has(result, k) <==> old(has(result, k))) && result[k] == old(result[k])
 //@   ensures[typename]{C01} old(field.ConType) != nil && field.Name == "__typename" ==> has(result, fkey(field)) && result[fkey(field)] == box(t.Name()) && len(ea) == 0 && #res == old(#res)
+//@   ensures[declared-leaf-type]{C05} depth > 0 && old(field.ConType) != nil && !isMetaName(field.Name) && old(fdOf(t, field.Name)) != nil && isLeafT(old(fdOf(t, field.Name).Type)) && len(ea) == 0 && has(result, fkey(field)) && result[fkey(field)] != nil ==> conformsOut(result[fkey(field)], old(fdOf(t, field.Name).Type))
+//@   ensures[required-arg-missing-no-call]{C04} old(field.ConType) != nil && !isMetaName(field.Name) && old(fdOf(t, field.Name)) != nil && (is(obj, Resolver) || root.AnyResolver != nil) && (exists k string :: old(nonNullArg(fdOf(t, field.Name), k)) && !old(suppliedUpTo(field.Args, k, len(field.Args)))) ==> len(ea) > 0 && #res == old(#res)
 //@   ensures[undefined-field]{C10} old(field.ConType) != nil && !isMetaName(field.Name) && old(fdOf(t, field.Name)) == nil ==> len(ea) > 0 && #res == old(#res) && (has(result, fkey(field)) <==> old(has(result, fkey(field)))) && result[fkey(field)] == old(result[fkey(field)])
 //@   assigns fresh, result, H_Field.ConType, H_Object.meta, H_FieldDef.goField, H_FieldDef.method, H_FieldDef.args, held, #res
 //@   ensures[locks-balanced]{C12,C20} held == old(held)
